@@ -20,7 +20,7 @@ THEOREMS = [
     "canon_identity_counterexample_embedded", "canon_identity_counterexample_tag", "canon_identity_counterexample_pkgpath",
     "methodset_counterexample_ambiguous", "methodset_counterexample_seen", "methodset_counterexample_ptrshadow",
     "methodset_counterexample_fieldhide", "methodset_counterexample_protoname", "methodset_counterexample_namedptr",
-    "methodset_counterexample_pkgname",
+    "methodset_counterexample_pkgname", "methodSet_flat", "specMethodSet_flat", "methodset_correct_partial_flat",
     "assert_counterexample_memo", "assertType_step", "assert_correct_partial", "assert_concrete",
     "iface_eq_counterexample", "iface_eq_partial",
 ]
